@@ -91,6 +91,7 @@ func main() {
 		return
 	}
 
+	tierThorough = *tier == "thorough"
 	w, err := loadWorld(*repo)
 	if err != nil {
 		fail(ids, *verif, "load failure: "+err.Error())
@@ -135,6 +136,7 @@ func main() {
 				o.Message = fmt.Sprintf("the rule holds on %v, but no entry point (CLI, pipeline API, generators) can reach %s any more (static calls, interface dispatch by class hierarchy, function values): the mechanism this obligation is about is no longer part of gleece's behaviour", o.Anchors, strings.Join(dead, ", "))
 			}
 		}
+		thoroughLiveness(w, r)
 		r.count("anchor_functions_checked_reachable", nAnch)
 		r.count("functions_reachable_from_entry_points", len(w.reachable()))
 		stats := map[string]int{}
